@@ -13,6 +13,7 @@ from pathlib import Path
 from typing import DefaultDict, Iterable
 
 from . import _dsdl_definition, _error, _serializable
+from ._data_type_builder import DataTypeCollisionError
 from ._dsdl import ReadableDSDLFile, PrintOutputHandler, SortedFileList
 from ._dsdl import file_sort as dsdl_file_sort
 from ._dsdl import normalize_paths_argument_to_list
@@ -476,7 +477,11 @@ def _ensure_minor_version_compatibility_pairwise(
     assert a is not b
     assert a.full_name == b.full_name
     assert a.version.major == b.version.major
-    assert a.version.minor != b.version.minor  # This is the whole point of this function.
+    if a.version.minor == b.version.minor:
+        # Two files that define the same version differently, e.g., Foo.1.0.dsdl next to 100.Foo.1.0.dsdl or Foo.1.0.uavcan.
+        raise DataTypeCollisionError(
+            "This definition conflicts with %s: both define %s" % (b.source_file_path, a), path=a.source_file_path
+        )
 
     # Must be of the same kind: both messages or both services
     if isinstance(a, _serializable.ServiceType) != isinstance(b, _serializable.ServiceType):
